@@ -293,7 +293,10 @@ def c13_c(ctx):
               node=cand[0] if cand else lo)
     ob = [s_ for s_ in own_nodes(rv.node) if isinstance(s_, ast.Assign) and
           isinstance(s_.targets[0], ast.Name) and s_.targets[0].id == OUT]
-    ok = bool(ob) and match(ex.raw(ob[0].value), pattern('np.empty((size,) + _s)')) is not None
+    ok = bool(ob) and (match(ex.raw(ob[0].value), pattern('np.empty((size,) + _s)')) is not None
+                       or match(ex.term(ob[0].value),
+                                pattern('np.empty((_z,) + _s)')) is not None and
+                       contains(ex.term(ob[0].value), 'size'))
     ctx.check(ok, rv, 'output has `size` rows', 'np.empty((size,) + means.shape[1:])',
               'the output buffer does not have `size` rows', fn=rv, node=ob[0] if ob else lo)
     rr = returns(rv)
